@@ -442,6 +442,11 @@ fn gen_c01(rng: &mut Rng, seed: u64, index: u64, long: bool) -> Scenario {
     if faulty {
         o.avoid_tags = vec![];
     }
+    if rng.chance(0.08) {
+        // lazy lexeme alive next to a greedy one that contains a slice (slicer guard)
+        o.want_tags = vec!["lazyg"];
+        o.allow_random_cfg = false;
+    }
     // full per-token commit is expensive: keep vocabularies moderate here
     let (world, productive) = gen_world(rng, &o);
     let nv = world.vocab.words.len();
